@@ -200,3 +200,84 @@ def canon_dict_iter(text):
         return ast.unparse(_DictIter().visit(ast.parse(text, mode="eval").body))
     except SyntaxError:
         return text
+
+
+class NotClosed(Exception):
+    pass
+
+
+def ieval(e, env):
+    """Evaluate a closed integer / boolean expression: constants, names bound in env, + - * // % << >> & | ^, comparisons
+    (chained too), in / not in over displays and range(), and / or / not, conditional expressions, len() of displays,
+    int/bool/abs/min/max.  Raises NotClosed for anything else.  (Constant folding over a finite domain, nothing is run.)"""
+    if isinstance(e, ast.Constant):
+        return e.value
+    if isinstance(e, ast.Name):
+        if e.id in env:
+            return env[e.id]
+        raise NotClosed(e.id)
+    if isinstance(e, (ast.List, ast.Tuple, ast.Set)):
+        return [ieval(x, env) for x in e.elts]
+    if isinstance(e, ast.UnaryOp):
+        v = ieval(e.operand, env)
+        if isinstance(e.op, ast.Not):
+            return not v
+        if isinstance(e.op, ast.USub):
+            return -v
+        if isinstance(e.op, ast.Invert):
+            return ~v
+        return v
+    if isinstance(e, ast.BinOp):
+        a, b = ieval(e.left, env), ieval(e.right, env)
+        ops = {ast.Add: lambda: a + b, ast.Sub: lambda: a - b, ast.Mult: lambda: a * b, ast.FloorDiv: lambda: a // b, ast.Mod: lambda: a % b,
+               ast.LShift: lambda: a << b if 0 <= b < 512 else None, ast.RShift: lambda: a >> b, ast.BitAnd: lambda: a & b, ast.BitOr: lambda: a | b,
+               ast.BitXor: lambda: a ^ b, ast.Pow: lambda: a ** b if 0 <= b < 512 else None}
+        f = ops.get(type(e.op))
+        if f is None:
+            raise NotClosed(norm(e))
+        try:
+            return f()
+        except Exception:
+            raise NotClosed(norm(e))
+    if isinstance(e, ast.BoolOp):
+        if isinstance(e.op, ast.And):
+            v = True
+            for x in e.values:
+                v = ieval(x, env)
+                if not v:
+                    return v
+            return v
+        v = False
+        for x in e.values:
+            v = ieval(x, env)
+            if v:
+                return v
+        return v
+    if isinstance(e, ast.IfExp):
+        return ieval(e.body, env) if ieval(e.test, env) else ieval(e.orelse, env)
+    if isinstance(e, ast.Compare):
+        left = ieval(e.left, env)
+        for o, r in zip(e.ops, e.comparators):
+            right = ieval(r, env)
+            fn = {ast.In: lambda: left in right, ast.NotIn: lambda: left not in right, ast.Eq: lambda: left == right, ast.NotEq: lambda: left != right,
+                  ast.Lt: lambda: left < right, ast.LtE: lambda: left <= right, ast.Gt: lambda: left > right, ast.GtE: lambda: left >= right,
+                  ast.Is: lambda: left is right, ast.IsNot: lambda: left is not right}.get(type(o))
+            if fn is None:
+                raise NotClosed(norm(e))
+            try:
+                if not fn():
+                    return False
+            except TypeError:
+                raise NotClosed(norm(e))
+            left = right
+        return True
+    if isinstance(e, ast.Call) and isinstance(e.func, ast.Name) and not e.keywords:
+        args = [ieval(a, env) for a in e.args]
+        if e.func.id == "range" and 1 <= len(args) <= 3:
+            return range(*args)
+        if e.func.id in ("int", "bool", "abs", "min", "max", "len") and args:
+            try:
+                return {"int": int, "bool": bool, "abs": abs, "min": min, "max": max, "len": len}[e.func.id](*args)
+            except Exception:
+                raise NotClosed(norm(e))
+    raise NotClosed(norm(e))
